@@ -128,7 +128,7 @@ J('C.strerror_s', ['C05'], 'C', 'contracts/str_strerror_s.spec.c',
 
 for fn, nm in ((1, 'asctime_s'), (2, 'ctime_s')):
     J('C.%s' % nm, ['C05'], 'C', 'contracts/os_time_s.spec.c', defines=['FN=%d' % fn],
-      sources=['src/os/%s.c' % nm], enforce='_%s_chk' % nm, functions=['_%s_chk' % nm], timeout=300, tiers=('dev',),
+      sources=['src/os/%s.c' % nm], enforce='_%s_chk' % nm, functions=['_%s_chk' % nm], timeout=300,
       note='loop-free wrapper, full domain; asctime_r/ctime_r and strlen assumed, _strcpy_s_chk replaced by the contract proved in A.strcpy_s (restated for a valid call; its requires side is the C05 obligation at the call site)',
       assumptions=['asctime_r / ctime_r return NULL or render a NUL-terminated text of fewer than 120 characters into the buffer they are given; strlen returns its length (ghost bodies in contracts/os_time_s.spec.c)',
                    'the restated _strcpy_s_chk contract (valid call => EOK, no handler) is the one job A.strcpy_s.arena proves for the real function; correspondence by inspection'])
